@@ -11,7 +11,7 @@ import sys
 VERIF = os.path.dirname(os.path.dirname(os.path.abspath(__file__)))
 SD = os.path.join(VERIF, "seeded")
 # outcome of the very first run of the checks against each seed, before any strengthening
-FIRST_MISSED = {"C16-5", "C16-6", "C15-5", "C15-6", "C10-6", "C10-7", "C04-6", "C05-6", "C14-6", "C02-7", "C02-8", "C17-5", "C19-5", "C06-6", "C13-3", "C13-4", "C17-4", "C19-3", "C15-4", "C16-3", "C16-4", "C14-3", "C14-4", "C03-4", "C03-5", "C02-5", "C02-6", "C10-5", "C02-3", "C08-4", "C10-4", "C04-3", "C09-3", "C11-4", "C12-4", "C02-2", "C03-1", "C05-1", "C06-1", "C06-2", "C08-1", "C08-2", "C10-1", "C11-2", "C15-1", "C18-1", "C19-1", "C19-2"}
+FIRST_MISSED = {"C08-6", "C08-7", "C13-5", "C16-5", "C16-6", "C15-5", "C15-6", "C10-6", "C10-7", "C04-6", "C05-6", "C14-6", "C02-7", "C02-8", "C17-5", "C19-5", "C06-6", "C13-3", "C13-4", "C17-4", "C19-3", "C15-4", "C16-3", "C16-4", "C14-3", "C14-4", "C03-4", "C03-5", "C02-5", "C02-6", "C10-5", "C02-3", "C08-4", "C10-4", "C04-3", "C09-3", "C11-4", "C12-4", "C02-2", "C03-1", "C05-1", "C06-1", "C06-2", "C08-1", "C08-2", "C10-1", "C11-2", "C15-1", "C18-1", "C19-1", "C19-2"}
 STRENGTHENED = {
     "C02-2": "new rule C02-e.upgrade-hands-over-write-buf (+ write-buf-effect)",
     "C03-1": "new rule C03-c.finished-kept-while-draining",
@@ -34,6 +34,11 @@ STRENGTHENED = {
     "C04-4": "caught by fail-closed anchors only (the Ready edge of poll_linger and its self-wake disappeared)",
     "C09-3": "new rule C09-f.configure-keeps-default",
     "C11-4": "C11-e.head-field strengthened from 'some write exists' to must-pass-through on every path to the hand-off",
+    "C08-6": "new rules C08-f.pong-ends-in-flight / ping-starts-in-flight",
+    "C08-7": "new rule C08-f.window-sizes-not-swapped",
+    "C13-5": "new rule C13-c.middleware-uses-negotiated-coding",
+    "C07-5": "was caught by C04 only (C04-c.eof-fails-body-first); the rule is now shared as C07-c.eof-fails-body-first",
+    "C11-6": "was caught by C09 only (C09-e data-stack rules); the rules are now shared as C11-f.*",
     "C16-5": "new rule C16-b.compressed-lookup-stays-inside",
     "C16-6": "new rules C16-c.range-size-unaltered / range-size-is-file-length",
     "C15-5": "new rule C15-g.field-released-only-when-ended",
